@@ -199,6 +199,32 @@ CHECKS = {
         "at the end of the file are unconstrained (the property does not settle them).",
    technique="TLA+ scoping reference; exhaustive small-program enumeration by TLC replayed into the real "
              "assembler/ELF writer; TLC trace acceptor"),
+ "C16": dict(
+   category="exploration",
+   text="Limits.tla models every fixed-size buffer as a resource with a capacity (TLC: never overrun, over the limit = "
+        "error) and states the process protocol (terminates, status 0/1, diagnostic when 1). TLC enumerates 30 bounded "
+        "resources (token, number, string, macro name/body/parameters/arguments, equ/define text, include name/path, operand "
+        "lists, macro/conditional/include/parenthesis/unary nesting, define recursion and chains, self-inclusion, repeat/resb/"
+        "data_fill counts, line and comment length) x lengths around each capacity; plus 44 extreme-address programs, the C12 "
+        "corruption space, seeded token mutations of the repository samples and seeded byte strings. Every input runs the "
+        "AddressSanitizer + bounds build of the real naken_asm under a timeout; TLC accepts each run.",
+   design_ref="DESIGN.md 4 C16",
+   note="The memory-error oracle is the sanitizer build, not the specification (stated in DESIGN.md 1). Timeouts 20-30 s.",
+   technique="TLA+ resource/capacity model + process protocol; spec-enumerated boundary inputs replayed into the "
+             "sanitizer-built executable; TLC trace acceptor"),
+ "C17": dict(
+   category="exploration",
+   text="FileModel.tla enumerates structured corruptions of well-formed object files produced by the real naken_asm (every "
+        "ELF header, section-header and symbol field, UF2 block field and WDC field at boundary values; truncation at 24 "
+        "lengths for 9 formats; 12 line-level mutations of hex/srec/ti-txt; byte flips for macho/amiga/elf/uf2) and "
+        "UtilSession.tla every interactive command x argument class (thorough: + 20,000 command pairs). Each case runs the "
+        "sanitizer build of the real naken_util (-disasm or a scripted session ending in quit) under a 15 s timeout; TLC "
+        "accepts each run (terminates normally, no signal, no sanitizer report).",
+   design_ref="DESIGN.md 4 C17",
+   note="Only the msp430 CPU selection is used for the file cases; scripts always end with quit (EOF behaviour of the readline "
+        "build is described in DESIGN.md).",
+   technique="TLA+ file/field and session enumeration; cases applied to real files and replayed into the "
+             "sanitizer-built naken_util; TLC trace acceptor"),
 }
 
 NOT_YET = "machinery for this property is not built yet in this revision (planned in DESIGN.md section 8)"
